@@ -31,6 +31,12 @@ SF_LINE = re.compile(r"^  Generation (\d+) \((.*?)\) (\w+): (\S+) \((\w+)\)$")
 
 
 def generate(rng, tier):
+    if rng.random() < 0.05:
+        from . import c06
+
+        sc = c06.generate_long(rng)  # more than nine generations in one history
+        sc["probe_seed"] = rng.getrandbits(30)
+        return sc
     if rng.random() < 0.4:
         from . import c08
 
